@@ -462,6 +462,22 @@ fn identifiers(n: &mut SimNode) -> Result<BTreeMap<String, String>, String> {
             }
         }
     }
+    // the reverse table (identifier -> entity), which the ingestion of rows received from peers goes through
+    if let Some(rev) = v["entities_short"].as_object() {
+        for (short, e) in rev {
+            let name = e.as_array().and_then(|a| a.get(1)).and_then(|x| x.as_str()).unwrap_or("?");
+            if !name.starts_with("sys.") {
+                out.insert(format!("<-{short}"), name.to_string());
+            }
+        }
+    } else {
+        out.insert("<-".into(), "reverse table not exported".into());
+    }
+    // and it is complete: every entity is found by its identifier
+    let missing: Vec<String> = out.iter().filter(|(k, _)| !k.contains('#') && !k.starts_with("<-")).filter(|(_, short)| !out.contains_key(&format!("<-{short}"))).map(|(k, _)| k.clone()).collect();
+    for m in missing {
+        out.insert(format!("<-missing:{m}"), format!("entity {m} not found by its identifier"));
+    }
     Ok(out)
 }
 
@@ -550,6 +566,9 @@ fn check_rows(c: &mut Ctx, node: usize, when: &str, edit: &str) -> Result<(), St
 
 fn check_identifiers(c: &mut Ctx, node: usize, before: &BTreeMap<String, String>, edit: &str) -> Result<(), String> {
     let after = identifiers(&mut c.w.nodes[node])?;
+    if let Some((k, _)) = after.iter().find(|(k, _)| k.starts_with("<-missing:")) {
+        c.w.violation("C15", &format!("identifier-not-resolvable/{edit}"), format!("n{node}: entity {} has an identifier but is not found by it (rows of it received from peers cannot be stored)", k.trim_start_matches("<-missing:")));
+    }
     for (k, v) in before {
         match after.get(k) {
             Some(a) if a == v => {}
